@@ -336,7 +336,7 @@ def relevant_vars(f, extra_calls=(), through_calls=True):
 
 
 def explore(f, start_block, start_idx, subject, value, classify_return, max_states=40000, origin_callid=None, from_entry=True,
-            terminal_calls=None, forbidden_calls=(), subject_return_ok=True, rel_facts_only=False):
+            terminal_calls=None, forbidden_calls=(), subject_return_ok=True, rel_facts_only=False, stop_blocks=(), dead_edges=()):
     """Walk every path from the function entry through the site (start_block,start_idx); after the site assume
     subject == value.  Branch conditions are decided (a) under the assumption when they mention the subject,
     (b) by the facts collected from the branches already taken on this path (correlated branches: `edx < n` at the
@@ -562,6 +562,8 @@ def explore(f, start_block, start_idx, subject, value, classify_return, max_stat
             if idx >= len(b.succ) or b.succ[idx] is None:
                 continue
             s = b.succ[idx]
+            if phase == 1 and (s in stop_blocks or (bid, s) in dead_edges):
+                continue        # the caller asks whether a return is reachable *without* passing these blocks / edges
             nenv = env
             if b.term and "cond" in b.term and b.term["kind"] == "SwitchStmt":
                 sv = strip_casts(b.term["cond"]["tree"])
